@@ -1085,7 +1085,7 @@ def syn_apply_moves(S):
         S.moved.append((key, r2))
 
 
-def _guards_to_ifelse(block):
+def _guards_to_ifelse(block, ret=""):
     """`{ ..; if c { ..; return A; } rest.. }` reads the same as `{ ..; if c { ..; A } else { rest.. } }` when the
     guard is a statement of the function's outermost block: rewritten in place (innermost guard first) so that a
     helper written with guard clauses has no `return` left and can be substituted as an expression."""
@@ -1113,6 +1113,16 @@ def _guards_to_ifelse(block):
                 new_if = {"e": "if", "line": e.get("line", 0), "cond": e["cond"], "then": {"e": "block", "line": e["then"].get("line", 0), "end": e["then"].get("end", 0), "stmts": then_stmts}, "else": {"e": "block", "line": e.get("line", 0), "end": e.get("line", 0), "stmts": rest}}
                 del stmts[i:]
                 stmts.append({"s": "expr", "line": st.get("line", 0), "semi": False, "e": new_if})
+        elif st.get("s") == "let" and (st.get("init") or {}).get("e") == "try" and st.get("else") is None and re.match(r"^Option\s*<", ret or ""):
+            # `let x = e?; rest..` in an Option-returning helper reads `if let Some(x) = e { rest.. } else { None }`
+            ln = st.get("line", 0)
+            rest = stmts[i + 1:]
+            new_if = {"e": "if", "line": ln,
+                      "cond": {"e": "let", "line": ln, "pat": {"p": "ts", "path": "Some", "elems": [st["pat"]]}, "expr": st["init"]["a"]},
+                      "then": {"e": "block", "line": ln, "end": ln, "stmts": rest},
+                      "else": {"e": "block", "line": ln, "end": ln, "stmts": [{"s": "expr", "line": ln, "semi": False, "e": {"e": "path", "line": ln, "p": "None"}}]}}
+            del stmts[i:]
+            stmts.append({"s": "expr", "line": ln, "semi": False, "e": new_if})
         i -= 1
 
 
@@ -1143,8 +1153,8 @@ def syn_inline_new_helpers(S):
             for impl, fns in groups.items():
                 new = [it for it in fns if "%s|%s|%s" % (rel, impl, it["name"]) not in pinned and it.get("body")]
                 for h in new:
-                    if any(n.get("e") == "return" for n in walk_expr(h["body"])):
-                        _guards_to_ifelse(h["body"])
+                    if any(n.get("e") in ("return", "try") for n in walk_expr(h["body"])):
+                        _guards_to_ifelse(h["body"], h.get("ret") or "")
                     body_nodes = list(walk_expr(h["body"]))
                     if any(n.get("e") in ("return", "try") for n in body_nodes):
                         continue
@@ -1227,6 +1237,10 @@ def walk_expr(x):
 _cache = {}
 
 
+def _totuple(x):
+    return tuple(_totuple(v) for v in x) if isinstance(x, list) else x
+
+
 def load(cfg="default"):
     if cfg in _cache:
         return _cache[cfg]
@@ -1234,4 +1248,10 @@ def load(cfg="default"):
     f = Syn(d) if cfg == "syn" else Facts(d, cfg)
     f.hash = h
     _cache[cfg] = f
+    if cfg != "syn":
+        from . import sem as _sem
+        _sem.register_facts(f)
+        if not _sem._ACCESSORS:
+            for name, path, tm in pin_file().get("accessors", []):
+                _sem._ACCESSORS.append((name, path, _totuple(tm)))
     return f
